@@ -264,7 +264,7 @@ func cmdCheck(args []string) int {
 		r.Obls = keep
 		nobl += len(keep)
 	}
-	timeout := 10
+	timeout := 30 // per obligation and solver; everything on the unchanged tree is decided in a few seconds - the margin is for loaded machines
 	if tier == "thorough" {
 		timeout = 60
 	}
